@@ -11,7 +11,8 @@ import vlib
 LEVEL_TEXT = ('Lean 4 theorems, for all shapes/targets/parities: pad (2-D and cubes) is the restriction of the centred zero-extended '
               'array (origin sample floor(m/2) -> floor(S/2), every copied sample keeps its coordinate), its slices are in bounds, '
               'pad-then-crop is the identity; subarray/boundary/boundary_slice/slice_offset address the stated index sets; rebin '
-              'preserves the sum; the centroid of a single sample at index (p, q) is (p, q); mesh coordinates translate under integer '
+              'preserves the sum; the centroid of an array that is half-turn symmetric about a sample is that sample, the centroid of an indicator '
+              'set is its mean position; mesh coordinates translate under integer '
               'shifts and negate under the half-turn index map; circle/rectangle/hexagon values lie in [0,1], are binary without '
               'antialiasing, translate under integer shifts and are half-turn (and, unrotated, mirror) symmetric — hexagons via the closure of their six '
               'edge normals under negation/mirroring, proved for the real angles n·pi/3 + phi; hex_ring(k) has 6k cells at cube '
@@ -86,7 +87,18 @@ def generate(rng, tier):
             m = (int(rng.integers(1, 9)), int(rng.integers(1, 9)))
             d = rng.integers(0, 4, m)
             if d.sum() == 0: d[int(rng.integers(0, m[0])), int(rng.integers(0, m[1]))] = 1
-            out.append({'kind': 'centroid', 'shape': list(m), 'data': [int(x) for x in d.ravel()]})
+            c = {'kind': 'centroid', 'shape': list(m), 'data': [int(x) for x in d.ravel()]}
+            if rng.integers(0, 2):
+                # half-turn symmetric about a sample (c0, c1): every non-zero sample has its mirror image inside the array
+                c0, c1 = int(rng.integers(0, m[0])), int(rng.integers(0, m[1]))
+                e = np.zeros(m, dtype=int)
+                for i in range(m[0]):
+                    for j in range(m[1]):
+                        i2, j2 = 2 * c0 - i, 2 * c1 - j
+                        if 0 <= i2 < m[0] and 0 <= j2 < m[1]: e[i, j] = d[i, j] + d[i2, j2]
+                if e.sum() == 0: e[c0, c1] = 1
+                c['data'] = [int(x) for x in e.ravel()]; c['sym_centre'] = [c0, c1]
+            out.append(c)
         elif t == 8:
             if rng.integers(0, 2):
                 out.append({'kind': 'hex_ring', 'k': int(rng.integers(0, 7))})
@@ -99,7 +111,6 @@ def generate(rng, tier):
             r = rng.integers(0, 4)
             drop = [0] if r == 0 else [] if r == 1 else [int(x) for x in rng.integers(0, N + 4, int(rng.integers(1, 6)))]
             gap = [0.0, 0.5, 1.0, 1.5, 2.0, 3.0][int(rng.integers(0, 6))]
-            if tier == 'quick' and k > 60 and gap == 0.0: gap = 1.0
             out.append({'kind': 'segments', 'rings': rings, 'radius': _dy(rng, 3, 7), 'gap': gap, 'rotate': bool(rng.integers(0, 2)),
                         'drop': drop, 'pad': int(rng.integers(2, 4))})
         else:
@@ -212,9 +223,16 @@ def impl(c):
             flat = lentil.hex_segments(c['rings'], c['radius'], c['gap'], rotate=c['rotate'], antialias=False, pad=c['pad'],
                                        drop=tuple(c['drop']), flatten=True)
             ring_cells = [h for k in range(1, c['rings'] + 1) for h in SG.hex_ring(k)]
+            # how deep inside a second segment do shared pixels lie? measured on the drawn masks themselves: Euclidean distance (in
+            # pixels) to the nearest pixel outside the segment; a pixel on the rim of a segment has depth 1
+            depth = 0.0
+            if s.max() > 1:
+                from scipy.ndimage import distance_transform_edt
+                deps = np.sort(np.array([distance_transform_edt(x) for x in m]), axis=0)[::-1]     # per pixel, largest first
+                depth = float(deps[1][s > 1].max())
             rc = [[float(v) for v in SG.hex_to_rc(h, c['radius'] + c['gap'] / 2, c['rotate'])] for h in ring_cells]
             return {'count': int(m.shape[0]), 'shape': list(m.shape), 'max_overlap': float(s.max()), 'n_overlap': int((s > 1).sum()),
-                    'sum': _il(s), 'rc': rc, 'ring_cells': [[int(h.q), int(h.r), int(h.s)] for h in ring_cells],
+                    'sum': _il(s), 'rc': rc, 'overlap_depth': depth, 'ring_cells': [[int(h.q), int(h.r), int(h.s)] for h in ring_cells],
                     'border': border, 'areas': [float(x.sum()) for x in m], 'centres': cents, 'binary': bool(np.all((m == 0) | (m == 1))),
                     'flatten_ok': bool(np.array_equal(flat, s))}
         # drawn shapes
@@ -414,6 +432,8 @@ def oracle(c, io):
         a = _arr(c); tot = a.sum()
         want = [float((np.arange(a.shape[0])[:, None] * a).sum() / tot), float((np.arange(a.shape[1])[None, :] * a).sum() / tot)]
         if max(abs(want[0] - io['rc'][0]), abs(want[1] - io['rc'][1])) > 1e-9 * (1 + max(a.shape)): return f"centroid {io['rc']} != {want}"
+        if 'sym_centre' in c and max(abs(io['rc'][0] - c['sym_centre'][0]), abs(io['rc'][1] - c['sym_centre'][1])) > 1e-9 * (1 + max(a.shape)):
+            return f"centroid {io['rc']} of an array that is half-turn symmetric about the sample {c['sym_centre']} is not that sample"
         return None
     if k == 'hex_ring':
         if 'exc' in io: return f"hex_ring raised {io['exc']}"
@@ -443,7 +463,13 @@ def oracle(c, io):
             if abs(x - A) > 6 * c['radius']: return f'segment area {x} far from the hexagon area {A:.1f}'
         if max(io['areas']) - min(io['areas']) > 6 * c['radius']: return 'segment areas differ by more than edge sampling'
         if io['max_overlap'] > 1:
-            return f"segments overlap: {io['n_overlap']} pixels belong to more than one segment (max multiplicity {io['max_overlap']:.0f}, seg_gap={c['gap']})"
+            k_ = c['rings']
+            edge_only = (io['overlap_depth'] <= 1.5 and io['max_overlap'] <= 3
+                         and io['n_overlap'] <= (3 * k_ * k_ + k_) * (c['radius'] + 1) + 6 * k_ * k_)
+            how = ('on shared edges only (shared pixels lie on the rim of all but one of their segments)' if edge_only
+                   else f"GROSSLY: shared pixels lie up to {io['overlap_depth']:.3g} px deep inside a second segment (rim = 1)")
+            return (f"segments overlap {how}: {io['n_overlap']} pixels belong to more than one segment "
+                    f"(max multiplicity {io['max_overlap']:.0f}, seg_gap={c['gap']})")
         return None
     # drawn shapes
     if 'exc' in io: return f"{k} raised {io['exc']}: {io.get('msg')}"
@@ -486,7 +512,10 @@ def shrink(c):
 def matches_finding(kf, case, msg):
     m = kf.get('match', {})
     if kf.get('id') != 'KF-C20-hex-gap0-shared-edge': return False
-    return case.get('kind') == 'segments' and case.get('gap') == m.get('seg_gap', 0) and msg.startswith('segments overlap')
+    # only the bounded shared-edge overlap is the known finding: multiplicity <= 3, shared pixels on the rim of all but one segment, at most
+    # (3k^2+k axis-parallel shared edges) x (R+1 pixel centres each) + 6k^2 vertex pixels — anything more at gap 0 stays a VIOLATION
+    return (case.get('kind') == 'segments' and case.get('gap') == m.get('seg_gap', 0)
+            and msg.startswith('segments overlap on shared edges only'))
 
 def replay_finding(kf):
     """the recorded witness on the real code: neighbouring gap-0 segments share edge pixels"""
@@ -494,4 +523,4 @@ def replay_finding(kf):
     c = kf['witness']
     io = impl(c)
     msg = oracle(c, io) if 'exc' not in io else None
-    return bool(msg and msg.startswith('segments overlap'))
+    return bool(msg and msg.startswith('segments overlap on shared edges only'))
